@@ -413,7 +413,7 @@ fn mode4(l: usize, tmo: Duration, drv: u64, k: u64, rounds: u64, dur_us: u64) ->
     let mut rounds_done = 0u64;
     let mut pushed_n = 0usize;
     'rounds: for r in 0..rounds {
-        if t_case.elapsed() > Duration::from_secs(25) {
+        if t_case.elapsed() > Duration::from_secs(8) {
             break; // a slow machine: fewer rounds, not a finding
         }
         let arrived = Arc::new(AtomicUsize::new(0));
@@ -612,7 +612,9 @@ fn model_events(c: &CaseOut) -> (Vec<[u64; 3]>, Vec<usize>, u64) {
             }
             H_JEND if !c.proactor_mode => {
                 let t = th_w.get(&e.thread).copied().unwrap_or(NOBODY);
-                out.push([9, t, jid.get(&e.a).copied().unwrap_or(NOBODY)]);
+                let j = jid.get(&e.a).copied().unwrap_or(NOBODY);
+                sent.insert(e.thread, j);
+                out.push([9, t, j]);
             }
             K_BLOCKING_END if c.proactor_mode => {
                 let Some(j) = cur.remove(&e.thread) else { continue };
@@ -626,8 +628,10 @@ fn model_events(c: &CaseOut) -> (Vec<[u64; 3]>, Vec<usize>, u64) {
                 out.push([11, t, j]);
             }
             H_WOKEN if !c.proactor_mode => {
+                // a straggler of an earlier case (its last event) is not part of this history
+                let Some(j) = sent.remove(&e.thread) else { continue };
                 let t = th_w.get(&e.thread).copied().unwrap_or(NOBODY);
-                out.push([11, t, jid.get(&e.a).copied().unwrap_or(NOBODY)]);
+                out.push([11, t, j]);
             }
             K_WORKER_EXIT => {
                 // a straggler of an earlier case's pool is not part of this history
